@@ -155,6 +155,7 @@ def check_c04(pid, tier, seed, replay):
         "texts longer than the enumeration bound are sampled (seeded); area chains beyond 4096 operators are outside the claim",
     ]
     if replay:
+        ck.write_evidence = False
         return do_replay(ck, replay)
     quick = tier == "quick"
     if quick:
@@ -189,6 +190,7 @@ def check_c08(pid, tier, seed, replay):
         "the harness renderer for large command lists is itself checked against the grammar (an invalid rendering is a tooling error, not a violation)",
     ]
     if replay:
+        ck.write_evidence = False
         return do_replay(ck, replay)
     quick = tier == "quick"
     if quick:
